@@ -247,6 +247,21 @@ def run(ck, F, prefix='C08'):
         ck.extra.setdefault('fixup_states', 0)
         ck.extra['fixup_states'] += nstates
     descent_rules(ck, F, S, intrusive, owning, prefix)
+    # the element a new tree node holds is built from the key by direct-initialisation `T(key)`: with list-initialisation `T{key}`
+    # an element type that has an initializer-list constructor is built from the one-element list instead (std::vector<size_t>{n}
+    # holds n, not n zeros) -- the node is linked where the key belongs but does not compare equal to it
+    R_pl = ck.rule(f'{prefix}.payload-direct-init', 'the owning tree constructs the element of a new node from the key by direct-initialisation '
+                   '(parentheses), for whatever element type it is instantiated with: list-initialisation would prefer an '
+                   'initializer-list constructor of the element type and store something that does not compare equal to the key', floor=2)
+    mk = sorted((f for f in F.fn.values() if f['name'] == 'make_node' and (f.get('parent') or '').startswith('ipr::util::rb_tree::container<')
+                 and f.get('body')), key=lambda f: f['id'])
+    if len(mk) < 2:
+        raise AnalysisBroken('no instantiation of rb_tree::container<T>::make_node found')
+    for f in mk:
+        sites = [n for n in walk(f['body']) if n.get('k') == 'new' or (n.get('k') == 'call' and (n.get('callee') or {}).get('name') == 'construct_at')]
+        lists = [n for n in sites if n.get('k') == 'new' and ((n.get('init') or {}).get('list') or (n.get('init') or {}).get('k') == 'initlist')]
+        ck.check(R_pl, contracts.short(f['parent']), bool(sites) and not lists,
+                 f'{f["id"]}: the element is ' + ('list-initialised (`T{key}`)' if lists else 'not constructed in this function'), loc=f['loc'], fn=f['id'])
 
 
 def one_iteration(F, S, core, f, loop, after, p_side, z_side, regime, uncle, context):
